@@ -12,7 +12,7 @@ theorem step2_perm : ∀ (ps : List PTree) (n : Nat),
   | cons p rest ih =>
     intro n
     cases p with
-    | hlink =>
+    | hlink k =>
       obtain ⟨h1, h2⟩ := ih n
       simp only [step2, numsL, numsT, pnumsL, pnumsT, List.nil_append]
       exact ⟨h1, h2⟩
@@ -50,7 +50,7 @@ theorem alloc_spec : (∀ t, SpecT t) ∧ (∀ l, SpecL l) := by
     intro t
     refine Tree.rec (motive_1 := SpecT) (motive_2 := SpecL) ?_ ?_ ?_ ?_ ?_ t
     · intro n; simp [allocT, pnumsT]
-    · intro n; simp [allocT, pnumsT]
+    · intro k n; simp [allocT, pnumsT]
     · intro cs ih n
       obtain ⟨a1, a2⟩ := ih n
       obtain ⟨b1, b2⟩ := step2_perm (allocL cs n).1 (allocL cs n).2
@@ -98,7 +98,7 @@ theorem numberRoot_perm (cs : List Tree) :
 mutual
 def OrdT : NTree → Prop
   | .file _ => True
-  | .hlink => True
+  | .hlink _ => True
   | .dir n cs => (∀ k ∈ numsL cs, k < n) ∧ OrdL cs
 def OrdL : List NTree → Prop
   | [] => True
@@ -122,7 +122,7 @@ theorem step2_ord : ∀ (ps : List PTree) (n : Nat), POrdL ps → (∀ k ∈ pnu
     simp only [POrdL] at ho
     simp only [pnumsL, List.mem_append] at hb
     cases p with
-    | hlink =>
+    | hlink k =>
       simp only [step2, OrdL, OrdT, true_and]
       exact ih n ho.2 (fun k hk => hb k (Or.inr hk))
     | file =>
@@ -147,7 +147,7 @@ theorem alloc_ord : (∀ t n, POrdT (allocT t n).1) ∧ (∀ l n, POrdL (allocL 
     refine Tree.rec (motive_1 := fun t => ∀ n, POrdT (allocT t n).1) (motive_2 := fun l => ∀ n, POrdL (allocL l n).1)
       ?_ ?_ ?_ ?_ ?_ t
     · intro n; simp [allocT, POrdT]
-    · intro n; simp [allocT, POrdT]
+    · intro k n; simp [allocT, POrdT]
     · intro cs ih n
       simp only [allocT, POrdT]
       exact step2_ord _ _ (ih n) (pnums_le cs n)
@@ -180,7 +180,7 @@ theorem numberRoot_ordered (cs : List Tree) : OrdT (numberRoot cs).1 := by
 mutual
 def eraseT : NTree → Tree
   | .file _ => .file
-  | .hlink => .hlink
+  | .hlink k => .hlink k
   | .dir _ cs => .dir (eraseL cs)
 def eraseL : List NTree → List Tree
   | [] => []
@@ -189,7 +189,7 @@ end
 
 def peraseT : PTree → Tree
   | .file => .file
-  | .hlink => .hlink
+  | .hlink k => .hlink k
   | .dir cs => .dir (eraseL cs)
 
 def peraseL : List PTree → List Tree
@@ -210,7 +210,7 @@ theorem alloc_erase : (∀ t n, peraseT (allocT t n).1 = t) ∧ (∀ l n, perase
     refine Tree.rec (motive_1 := fun t => ∀ n, peraseT (allocT t n).1 = t) (motive_2 := fun l => ∀ n, peraseL (allocL l n).1 = l)
       ?_ ?_ ?_ ?_ ?_ t
     · intro n; simp [allocT, peraseT]
-    · intro n; simp [allocT, peraseT]
+    · intro k n; simp [allocT, peraseT]
     · intro cs ih n
       simp only [allocT, peraseT, step2_erase, ih]
     · intro n; simp [allocL, peraseL]
@@ -225,5 +225,173 @@ theorem alloc_erase : (∀ t n, peraseT (allocT t n).1 = t) ∧ (∀ l n, perase
 /-- numbering changes nothing but the numbers: forgetting them gives back the input tree -/
 theorem numberRoot_shape (cs : List Tree) : eraseT (numberRoot cs).1 = .dir cs := by
   simp only [numberRoot, eraseT, step2_erase, alloc_erase.2]
+
+/-! ### `reorder_hard_links` keeps the numbering dense -/
+
+/-- `inodes[k]->inode_num == k + 1` -/
+def Dense (arr : List Slot) : Prop := ∀ k s, arr[k]? = some s → s.num = k + 1
+
+theorem rotate_ids (arr : List Slot) (i t : Nat) (hi : i ≤ t) :
+    ((rotate arr i t).map (·.id)).Perm (arr.map (·.id)) := by
+  unfold rotate
+  cases h : arr[t]? with
+  | none => exact List.Perm.refl _
+  | some tgt =>
+    simp only
+    have hlt : t < arr.length := by
+      rcases Nat.lt_or_ge t arr.length with h' | h'
+      · exact h'
+      · rw [List.getElem?_eq_none h'] at h; cases h
+    -- arr = take i ++ (drop i).take (t - i) ++ [tgt] ++ drop (t+1)
+    have hsplit : arr = arr.take i ++ ((arr.drop i).take (t - i) ++ tgt :: arr.drop (t + 1)) := by
+      have h1 : arr.drop i = (arr.drop i).take (t - i) ++ (arr.drop i).drop (t - i) := (List.take_append_drop _ _).symm
+      have h2 : (arr.drop i).drop (t - i) = arr.drop t := by rw [List.drop_drop]; congr 1; omega
+      have h3 : arr.drop t = tgt :: arr.drop (t + 1) := by
+        rw [List.drop_eq_getElem_cons hlt]
+        have : arr[t] = tgt := by
+          have := List.getElem?_eq_getElem hlt
+          rw [this] at h; exact Option.some.inj h
+        rw [this]
+      have h0 : arr = arr.take i ++ arr.drop i := (List.take_append_drop i arr).symm
+      rw [h1, h2, h3] at h0
+      exact h0
+    conv => rhs; rw [hsplit]
+    simp only [List.map_append, List.map_cons, List.map_map]
+    have hid : (List.map ((fun x => x.id) ∘ fun s => ({ id := s.id, num := s.num + 1 } : Slot)) (List.take (t - i) (List.drop i arr)))
+        = List.map (fun x => x.id) (List.take (t - i) (List.drop i arr)) := by
+      apply List.map_congr_left; intro a _; rfl
+    rw [hid]
+    apply List.Perm.append_left
+    exact (List.perm_middle).symm
+
+theorem rotate_dense (arr : List Slot) (i t : Nat) (hi : i ≤ t) (hd : Dense arr) : Dense (rotate arr i t) := by
+  unfold rotate
+  cases h : arr[t]? with
+  | none => exact hd
+  | some tgt =>
+    simp only
+    have hlt : t < arr.length := by
+      rcases Nat.lt_or_ge t arr.length with h' | h'
+      · exact h'
+      · rw [List.getElem?_eq_none h'] at h; cases h
+    intro k s hk
+    have hli : (arr.take i).length = i := by rw [List.length_take]; omega
+    by_cases h1 : k < i
+    · rw [List.getElem?_append_left (by omega)] at hk
+      rw [List.getElem?_take_of_lt h1] at hk
+      exact hd k s hk
+    · rw [List.getElem?_append_right (by omega), hli] at hk
+      by_cases h2 : k = i
+      · subst h2
+        simp only [Nat.sub_self, List.getElem?_cons_zero, Option.some.injEq] at hk
+        rw [← hk]
+      · obtain ⟨m, hm⟩ : ∃ m, k - i = m + 1 := ⟨k - i - 1, by omega⟩
+        rw [hm] at hk
+        simp only [List.getElem?_cons_succ] at hk
+        have hlm : (((arr.drop i).take (t - i)).map (fun s => ({ id := s.id, num := s.num + 1 } : Slot))).length = t - i := by
+          rw [List.length_map, List.length_take, List.length_drop]; omega
+        by_cases h3 : m < t - i
+        · rw [List.getElem?_append_left (by omega), List.getElem?_map, List.getElem?_take_of_lt h3, List.getElem?_drop] at hk
+          cases hx : arr[i + m]? with
+          | none => rw [hx] at hk; simp at hk
+          | some x =>
+            rw [hx] at hk
+            simp only [Option.map_some, Option.some.injEq] at hk
+            have := hd (i + m) x hx
+            rw [← hk]; simp only; omega
+        · rw [List.getElem?_append_right (by omega), hlm, List.getElem?_drop] at hk
+          have := hd _ s hk
+          omega
+
+theorem reorderDir_spec : ∀ (links : List Nat) (arr : List Slot) (i : Nat), Dense arr →
+    Dense (reorderDir links arr i).1 ∧ ((reorderDir links arr i).1.map (·.id)).Perm (arr.map (·.id)) ∧ i ≤ (reorderDir links arr i).2 := by
+  intro links
+  induction links with
+  | nil => intro arr i hd; exact ⟨hd, List.Perm.refl _, Nat.le_refl _⟩
+  | cons t rest ih =>
+    intro arr i hd
+    unfold reorderDir
+    cases hf : arr.find? (·.id == t) with
+    | none => exact ih arr i hd
+    | some s =>
+      simp only
+      by_cases hle : s.num - 1 ≤ i
+      · rw [if_pos hle]; exact ih arr i hd
+      · rw [if_neg hle]
+        obtain ⟨a, b, c⟩ := ih (rotate arr i (s.num - 1)) (i + 1) (rotate_dense arr i _ (by omega) hd)
+        exact ⟨a, b.trans (rotate_ids arr i _ (by omega)), by omega⟩
+
+theorem reorderGo_spec (linksOf : Nat → Option (List Nat)) : ∀ (f : Nat) (arr : List Slot) (i : Nat), Dense arr →
+    Dense (reorderGo linksOf f arr i) ∧ ((reorderGo linksOf f arr i).map (·.id)).Perm (arr.map (·.id)) := by
+  intro f
+  induction f with
+  | zero => intro arr i hd; exact ⟨hd, List.Perm.refl _⟩
+  | succ f ih =>
+    intro arr i hd
+    unfold reorderGo
+    cases h : arr[i]? with
+    | none => exact ⟨hd, List.Perm.refl _⟩
+    | some s =>
+      simp only
+      cases hl : linksOf s.id with
+      | none => exact ih arr (i + 1) hd
+      | some links =>
+        simp only
+        obtain ⟨a, b, _⟩ := reorderDir_spec links arr i hd
+        obtain ⟨c, d⟩ := ih (reorderDir links arr i).1 ((reorderDir links arr i).2 + 1) a
+        exact ⟨c, d.trans b⟩
+
+theorem initialSlots_dense (n : Nat) : Dense (initialSlots n) := by
+  intro k s hk
+  unfold initialSlots at hk
+  rw [List.getElem?_map] at hk
+  cases h : (List.range' 1 n)[k]? with
+  | none => rw [h] at hk; simp at hk
+  | some v =>
+    rw [h] at hk
+    simp only [Option.map_some, Option.some.injEq] at hk
+    have hv : v = 1 + k := by
+      have hlt : k < (List.range' 1 n).length := by
+        rcases Nat.lt_or_ge k (List.range' 1 n).length with h' | h'
+        · exact h'
+        · rw [List.getElem?_eq_none h'] at h; cases h
+      rw [List.getElem?_eq_getElem hlt, List.getElem_range'] at h
+      simp only [Option.some.injEq] at h; omega
+    rw [← hk]; simp only; omega
+
+theorem dense_nums : ∀ (arr : List Slot) (a : Nat), (∀ k s, arr[k]? = some s → s.num = a + k) →
+    arr.map (·.num) = List.range' a arr.length := by
+  intro arr
+  induction arr with
+  | nil => intro a _; rfl
+  | cons x xs ih =>
+    intro a h
+    simp only [List.map_cons, List.length_cons, List.range'_succ]
+    have h0 := h 0 x (by simp)
+    rw [ih (a + 1) (fun k s hk => by have := h (k + 1) s (by simpa using hk); omega)]
+    simp only [Nat.add_zero] at h0
+    rw [h0]
+
+/-- after `reorder_hard_links`: slot `k` carries inode number `k + 1`, and the slots hold exactly the nodes the DFS
+numbered (each once) -/
+theorem postProcess_spec (cs : List Tree) :
+    (postProcess cs).map (·.num) = List.range' 1 (numberRoot cs).2 ∧
+    ((postProcess cs).map (·.id)).Perm (numsT (numberRoot cs).1) := by
+  unfold postProcess
+  simp only
+  obtain ⟨hd, hp⟩ := reorderGo_spec
+    (fun id => ((dirsT (filesT (numberRoot cs).1) (numberRoot cs).1).find? (·.1 == id)).map (·.2))
+    ((numberRoot cs).2 + 1) (initialSlots (numberRoot cs).2) 0 (initialSlots_dense _)
+  have hids : (initialSlots (numberRoot cs).2).map (·.id) = List.range' 1 (numberRoot cs).2 := by
+    unfold initialSlots
+    rw [List.map_map]
+    have : ((fun (x : Slot) => x.id) ∘ fun n => ({ id := n, num := n } : Slot)) = id := rfl
+    rw [this, List.map_id]
+  have hlen := hp.length_eq
+  rw [hids] at hp
+  simp only [List.length_map, hids, List.length_range'] at hlen
+  refine ⟨?_, hp.trans (numberRoot_perm cs).symm⟩
+  have := dense_nums _ 1 (fun k s hk => by have := hd k s hk; omega)
+  rw [this, hlen]
 
 end Sqfs.Numbering
